@@ -309,3 +309,10 @@ def mid_payload(kind, x):
 @task()
 def top_payload(kind, x):
     return [inc(x), mid_payload(kind, x)]
+
+
+@task()
+def cdef(x, y=cmid(1)):
+    """A call whose result depends on the context only through its subtree (cmid -> cleaf) sits in a DEFAULT ARGUMENT: it is
+    evaluated in the called job's environment, under its context; the call itself looks the same under every context."""
+    return y
